@@ -463,8 +463,12 @@ pub fn release_snapshots_scenario(seed: u64, n_announces: u64) -> (u64, u64, Vec
     b.n_ports = 2;
     b.path_trace = seed % 2 == 0;
     b.seed = seed;
+    // a slave-only instance: its ports fall back to listening when the parent is lost, the data
+    // sets are rewritten with the own values all the same
+    b.slave_only = seed % 4 == 3;
     let Ok(built) = b.build() else { return (0, 0, vec![]) };
     let mut node = built.node;
+    let own_tp_text = format!("{:?}", node.inst().time_properties_ds());
     let src = Src::new(clock_id(0x10).0, 1);
     let mut problems = vec![];
     let mut states = 0u64;
@@ -498,6 +502,12 @@ pub fn release_snapshots_scenario(seed: u64, n_announces: u64) -> (u64, u64, Vec
             if g8 == own {
                 if p1 != Some(128) || p2 != Some(128) || class != Some(248) {
                     problems.push(format!("{what}: parentDS observable at a write-lock release mixes the instance's own identity with foreign fields: priority1={p1:?} priority2={p2:?} class={class:?}"));
+                }
+                // the update that makes the instance its own grandmaster writes all three data
+                // sets from the instance's own values; nothing else writes them until a parent is
+                // selected again
+                if tp != own_tp_text || steps != Some(0) {
+                    problems.push(format!("{what}: state observable at a write-lock release mixes two updates: parentDS names the instance itself as grandmaster, but stepsRemoved={steps:?} and timePropertiesDS={tp} (own: {own_tp_text})"));
                 }
             } else {
                 let k = u64::from_be_bytes(g8);
